@@ -213,7 +213,7 @@ func (f Function) returnTypeForValues(args []cty.Value) (ty cty.Type, dynTypedAr
 				// For now we'll just return the first error in the set, since
 				// we don't have a good way to return the whole list here.
 				// Would be good to do something better at some point...
-				return cty.Type{}, false, NewArgError(i, errs[0])
+				return cty.Type{}, false, NewArgError(realI, errs[0])
 			}
 		}
 	}
